@@ -26,6 +26,7 @@ type Obl struct {
 	Thor    bool
 	Cover   bool // vacuity query: expected SAT
 	noSplit bool
+	Slow    bool
 	Mode    string
 	Bounded int
 }
@@ -112,9 +113,12 @@ type Frame struct {
 	cur       *ssa.BasicBlock
 	lookBlock *ssa.BasicBlock // contract identifier resolution point
 	lookAtEnd bool
+	lookIdx   int // when > 0: only instructions before this index of lookBlock are visible
+	asserts   map[*ssa.BasicBlock]map[int][]*Clause
 	st        *State
 	backEdges map[[2]*ssa.BasicBlock]bool
 	callStack []*ssa.Function
+	callArgs  []ssa.Value // arguments of the call that created this (inlined) frame
 }
 
 type envEnt struct {
@@ -641,6 +645,7 @@ func (fr *Frame) analyzeLoops() {
 			li.stmt = stmts[best]
 		}
 	}
+	fr.placeAsserts()
 	// loop memory footprints
 	for _, li := range fr.loops {
 		li.mods = map[string]bool{}
@@ -918,7 +923,7 @@ func (fr *Frame) loopHead(li *loopInfo) {
 			cond := cx.evalBool(c.Expr)
 			o := fr.oblige("inv-entry", fmt.Sprintf("loop%d:%s", li.ordinal, clauseName(c)), cond, token.NoPos)
 			if o != nil {
-				o.Label, o.Mode = c.Label, c.Mode
+				o.Label, o.Mode, o.Slow = c.Label, c.Mode, c.Slow
 			}
 		}
 	}
@@ -1087,7 +1092,7 @@ func (fr *Frame) backEdge(from *ssa.BasicBlock, li *loopInfo, cond string) {
 		cx := fr.loopCtx(li, next, fr.st, true)
 		o := fr.oblige("inv-keep", fmt.Sprintf("loop%d:%s", li.ordinal, clauseName(c)), cx.evalBool(c.Expr), token.NoPos)
 		if o != nil {
-			o.Label, o.Mode = c.Label, c.Mode
+			o.Label, o.Mode, o.Slow = c.Label, c.Mode, c.Slow
 		}
 	}
 	for _, c := range ls.Steps {
@@ -1099,7 +1104,7 @@ func (fr *Frame) backEdge(from *ssa.BasicBlock, li *loopInfo, cond string) {
 		cx.oldVals = li.entryVals
 		o := fr.oblige("step", fmt.Sprintf("loop%d:%s", li.ordinal, clauseName(c)), cx.evalBool(c.Expr), token.NoPos)
 		if o != nil {
-			o.Label, o.Mode = c.Label, c.Mode
+			o.Label, o.Mode, o.Slow = c.Label, c.Mode, c.Slow
 		}
 	}
 	if ls.Decreases != nil {
@@ -1114,8 +1119,27 @@ func (fr *Frame) backEdge(from *ssa.BasicBlock, li *loopInfo, cond string) {
 }
 
 func (fr *Frame) execBlock(b *ssa.BasicBlock) {
-	for _, in := range b.Instrs {
+	for i, in := range b.Instrs {
 		fr.execInstr(in)
+		if cs := fr.asserts[b][i]; cs != nil {
+			for _, c := range cs {
+				if c.Thor && !fr.ex.thorough {
+					continue
+				}
+				fr.lookBlock, fr.lookAtEnd, fr.lookIdx = b, true, i+1
+				cx := fr.baseCtx(fr.st)
+				cx.lookup = func(name string) (*Val, types.Type, bool) { return fr.frameLookup(name, cx.state(), nil) }
+				cx.old, cx.entrySt, cx.goal = fr.entrySt, fr.entrySt, true
+				if li := fr.inLoop[b]; li != nil {
+					cx.old, cx.oldVals, cx.preSt = li.entrySt, li.entryVals, li.preSt
+				}
+				o := fr.oblige("assert", clauseName(c), cx.evalBool(c.Expr), in.Pos())
+				if o != nil {
+					o.Label, o.Mode, o.Slow = c.Label, c.Mode, c.Slow
+				}
+				fr.lookIdx = 0
+			}
+		}
 	}
 	// edges leaving the innermost loop: exit clauses
 	if li := fr.inLoop[b]; li != nil && fr.spec != nil && li.ordinal > 0 {
@@ -1144,7 +1168,7 @@ func (fr *Frame) execBlock(b *ssa.BasicBlock) {
 					cx.oldVals = li.entryVals
 					o := fr.oblige("exit", fmt.Sprintf("loop%d:%s", li.ordinal, clauseName(c)), cx.evalBool(c.Expr), token.NoPos)
 					if o != nil {
-						o.Label, o.Mode = c.Label, c.Mode
+						o.Label, o.Mode, o.Slow = c.Label, c.Mode, c.Slow
 					}
 				}
 				fr.reach[b] = saveReach
@@ -1310,4 +1334,63 @@ func (ls *LoopSpec) forTier(thorough bool) *LoopSpec {
 		}
 	}
 	return &c
+}
+
+// placeAsserts maps every "assert after <statement>" clause to the last SSA
+// instruction generated for that statement.
+func (fr *Frame) placeAsserts() {
+	fr.asserts = map[*ssa.BasicBlock]map[int][]*Clause{}
+	if fr.spec == nil || len(fr.spec.Asserts) == 0 || fr.depth > 0 {
+		return
+	}
+	syn := fr.fn.Syntax()
+	if syn == nil {
+		return
+	}
+	for _, pa := range fr.spec.Asserts {
+		var found []ast.Stmt
+		ast.Inspect(syn, func(n ast.Node) bool {
+			if st, ok := n.(ast.Stmt); ok {
+				if _, isBlock := n.(*ast.BlockStmt); !isBlock && fr.ex.P.nodeText(st) == pa.Stmt {
+					found = append(found, st)
+				}
+			}
+			return true
+		})
+		if len(found) != 1 {
+			panic(fmt.Errorf("contract: assert after %q: statement found %d times in %s", pa.Stmt, len(found), fr.fn.Name()))
+		}
+		lo, hi := found[0].Pos(), found[0].End()
+		var bb *ssa.BasicBlock
+		bi := -1
+		var bp token.Pos
+		for _, b := range fr.fn.Blocks {
+			for i, in := range b.Instrs {
+				p := in.Pos()
+				if p.IsValid() && p >= lo && p < hi && p >= bp {
+					bb, bi, bp = b, i, p
+				}
+			}
+		}
+		if bb == nil {
+			panic(fmt.Errorf("contract: assert after %q: no instruction for the statement", pa.Stmt))
+		}
+		// extend to the end of the run of instructions belonging to the statement (stores have no position)
+		for bi+1 < len(bb.Instrs) {
+			nx := bb.Instrs[bi+1]
+			if _, isStore := nx.(*ssa.Store); isStore && !nx.Pos().IsValid() {
+				bi++
+				continue
+			}
+			if p := nx.Pos(); p.IsValid() && p >= lo && p < hi {
+				bi++
+				continue
+			}
+			break
+		}
+		if fr.asserts[bb] == nil {
+			fr.asserts[bb] = map[int][]*Clause{}
+		}
+		fr.asserts[bb][bi] = append(fr.asserts[bb][bi], pa.Clause)
+	}
 }
